@@ -20,7 +20,7 @@ CODE = ["yowsup/layers/__init__.py:YowLayer.toLower (lock held while the lower l
         "yowsup/layers/coder/layer.py:send/write", "yowsup/layers/logger/layer.py", "yowsup/layers/protocol_iq/layer.py:sendIq", "yowsup/layers/interface/interface.py:send",
         "consonance.transport.WANoiseTransport.send + dissononce CipherState.encrypt_with_ad (real, traced)"]
 BOUNDS = {"quick": "2 threads x 2 stanzas and 3 threads x 1 stanza (application via the top layer, keep-alive via the iq layer, second application thread, senders at the coder layer); all interleavings of the extracted events; "
-                   "races: 2 senders x 1 stanza, every shared written container, <=5 access positions of one sender x first access of the other per operation; 3 kinds of refused send before 2 concurrent senders",
+                   "races: 2 senders x 1 stanza, every shared written container, <=5 access positions of one sender x first access of the other per operation; 3 kinds of refused send before 2 concurrent senders; a peer drop followed by senders before the new handshake; frames of 64 KiB..3 MiB",
           "thorough": "up to 3 threads x 3 stanzas and 4 threads x 2 stanzas"}
 OUTSIDE = ["the handshake thread (C04, not applicable)", "atomicity below the traced events (single byte-code operations inside consonance/dissononce under the GIL)",
            "shared state other than list/dict/bytearray/set objects touched by yowsup's own code on the send path (attribute rebinding, state inside consonance/dissononce beyond nonce and queue)",
